@@ -158,7 +158,10 @@ def _output_screen_diff(
         numbers = (
             index
             for index, cell in row.items()
-            if cell.char != " " or style_string_has_style[cell.style]
+            # (Cells at negative column indices - a float with a negative
+            # `left` - are not visible and don't count.)
+            if index >= 0
+            and (cell.char != " " or style_string_has_style[cell.style])
         )
         return max(numbers, default=0)
 
